@@ -150,10 +150,11 @@ class Sim:
                 return e
         return None
 
-    def fire(self, e, rxn_keys=None):
+    def fire(self, e, rxn_keys=None, record=True):
         """Record that a planned fault actually took effect."""
         self.fired[e["site"] + "." + e["kind"]] += 1
-        self.fired_list.append(e)
+        if record:
+            self.fired_list.append(e)
         self.event("fault", e["site"], e["kind"], list(e["key"]))
         if rxn_keys is None:
             self.affected_all = True
